@@ -36,7 +36,7 @@ def cases(run, adversarial=False, count=None):
 
 def main(run):
     run.regen()
-    run.prove()
+    run.prove(extra_targets=["proofs/Pinned_comm.vo"])
     model_ok = run.build_model()
     run.run_findings()
     if model_ok:
